@@ -32,6 +32,10 @@ def x_obligations(tier):
         o.append(Obl(f"C03-from-path[{conf},{pre!r}+{n}+{suf!r}]", "xhair.obl.c05", "roundtrip", env={"VF_CONF": conf, "VF_CONFIG": cfg, "VF_PRE": pre, "VF_N": str(n), "VF_SUF": suf},
                      timeout=170 if tier == "quick" else 600, path_timeout=300, family="C03-from-path",
                      bound=f"{conf}: Sid(path=Sid({pre!r}+c+{suf!r}).path()) has the same fields in the same order, the same keytype and parent"))
+    # a configuration with an explicitly declared intermediate level inside an extrapolated chain (miniB): the walk crosses it
+    for pre, n, suf in [("m/p/x/it/01/s/", 1, ""), ("m/p/x/", 1, "/01/p/i")]:
+        o.append(Obl(f"C03-walk[miniB,{pre!r}+{n}+{suf!r}]", M, "walk", env={"VF_CONF": "miniB", "VF_PRE": pre, "VF_N": str(n), "VF_SUF": suf}, timeout=170 if tier == "quick" else 600,
+                     family="C03-walk", bound=f"miniB: Sid({pre!r}+t+{suf!r}), every t with len(t) <= {n}"))
     o.append(Obl("C03-reach", M, "reach", env={"VF_N": "3", "VF_PRE": "h/a/"}, timeout=150, expect="refute", family="C03-twin"))
     return o
 
